@@ -423,7 +423,7 @@ def rule_default_consts(ctx):
                 r.instance(function=nid, non_none_defaults=bad, ok=not bad)
                 if bad:
                     r.violate(nid, 'builder-default', ','.join(bad), 'the default builder presets %s' % bad, where=ctx.where(nid))
-    r.require_floor(8 if ctx.has_sync else 4, 'default-value obligations')
+    r.require_floor(8 if ctx.has_sync else 3, 'default-value obligations')
     return r
 
 
